@@ -142,46 +142,8 @@ def run(repo, res):
 
     # ---- R6 lint / assist wiring -------------------------------------------------------
     lint = repo.module_func(LINTER, 'lint')
-    ex = Expander(lint)
-    codes = {}
-    for n in ast.walk(lint):
-        if isinstance(n, ast.Tuple) and n.elts and isinstance(n.elts[0], ast.Constant) \
-                and n.elts[0].value in ('E02', 'E42'):
-            h = n
-            while h is not None and not isinstance(h, ast.ExceptHandler):
-                h = getattr(h, '_parent', None)
-            codes.setdefault(n.elts[0].value, []).append((n, h))
-    for code, exc, what in (('E42', 'AttributeError', 'the read has no region'),
-                            ('E02', 'KeyError', 'the name is absent from the table')):
-        sites = codes.get(code, [])
-        ok = len(sites) == 1 and sites[0][1] is not None and sites[0][1].type is not None \
-            and unparse(sites[0][1].type) == exc
-        res.check('C01-R6', 'lint %s producer' % code, ok, LINTER, sites[0][0].lineno if sites else lint.lineno,
-                  'lint must report %s only when %s (single producer inside `except %s`)' % (code, what, exc))
-    # the table looked up in the KeyError-try derives from names_at(np(read)) of the read's own flow
-    ok = False
-    detail = ''
-    for code, lst in codes.items():
-        if code != 'E02':
-            continue
-        h = lst[0][1]
-        tr = getattr(h, '_parent', None)
-        if isinstance(tr, ast.Try):
-            for n in ast.walk(ast.Module(body=tr.body, type_ignores=[])):
-                if isinstance(n, ast.Subscript):
-                    txts = ex.all_texts(n)
-                    detail = ' | '.join(txts)
-                    ok = all(('.flow.names_at(np(' in txt or '.flow.names_at((' in txt) and '.id]' in txt
-                             and not txt.startswith(('visible', 'cache')) for txt in txts)
-                    # the table must be computed for this read's own position: no reuse through a keyed cache
-                    for txt in txts:
-                        m_ = ast.parse(txt, mode='eval').body
-                        if not (isinstance(m_, ast.Subscript) and isinstance(m_.value, ast.Call)
-                                and unparse(m_.value.func).endswith('.flow.names_at')):
-                            ok = False
-    res.check('C01-R6', 'lint lookup table', ok, LINTER, lint.lineno,
-              "the table lint consults must be names_at(np(read)) of the read's own region; found %s" % detail,
-              sample='lint: %s' % detail[:90])
+    from .. import api_model
+    api_model.apply(res, api_model.lint_model(repo), {'producers': 'C01-R6', 'lookup': 'C01-R6'}, LINTER, lint.lineno)
     assist = repo.module_func(ASSIST, 'assist')
     ex2 = Expander(assist)
     ok = False
